@@ -283,3 +283,73 @@ func AttrName(n string) string {
 	}
 	return strconv.Quote(n)
 }
+
+// Taint reports which known-broken regions of the value space a model value touches
+// (anywhere inside it): "super" = a set holding two sequence elements (@item/@char/@byte)
+// at the same index with different payloads (superimposed items), "multi" = a set holding
+// two dictionary entries (@value) with the same key, "bytegap" = a set whose @byte elements
+// do not occupy contiguous indices (byte arrays cannot hold holes). The implementation has no sound
+// representation for either; failures on tainted inputs are grouped under one root cause.
+func Taint(vs ...*V) string {
+	super, multi, gap := false, false, false
+	var walk func(v *V)
+	walk = func(v *V) {
+		if v == nil {
+			return
+		}
+		for _, c := range v.Vals {
+			walk(c)
+		}
+		if v.K != KSet {
+			return
+		}
+		seen := map[string]string{}
+		minB, maxB, nB := 1<<30, -(1 << 30), 0
+		for _, m := range v.Mem {
+			if attr, ok := SeqAttr(m); ok && attr == "@byte" && m.Vals[0].K == KNum {
+				at := int(m.Vals[0].N)
+				if at < minB {
+					minB = at
+				}
+				if at > maxB {
+					maxB = at
+				}
+				nB++
+			}
+		}
+		if nB > 0 && maxB-minB+1 != nB {
+			gap = true
+		}
+		for _, m := range v.Mem {
+			walk(m)
+			if attr, ok := SeqAttr(m); ok {
+				switch attr {
+				case "@item", "@char", "@byte", "@value":
+					k := attr + "|" + m.Vals[0].Enc()
+					if prev, dup := seen[k]; dup && prev != m.Vals[1].Enc() {
+						if attr == "@value" {
+							multi = true
+						} else {
+							super = true
+						}
+					}
+					seen[k] = m.Vals[1].Enc()
+				}
+			}
+		}
+	}
+	for _, v := range vs {
+		walk(v)
+	}
+	var ts []string
+	if super {
+		ts = append(ts, "super")
+	}
+	if multi {
+		ts = append(ts, "multi")
+	}
+	if gap && !super {
+		ts = append(ts, "bytegap")
+	}
+	return strings.Join(ts, "+")
+}
